@@ -60,6 +60,60 @@ def run_pairs(ctx):
         ctx.guard("fieldcov", lambda struct=struct, save=save, restore=restore, exc=exc: check_pair(ctx, struct, save, restore, exc))
 
 
+# calls that reorder or drop elements of a collection: neither the save nor the restore function may apply them to state
+REORDER = {"sort", "sort_by", "sort_by_key", "sort_by_cached_key", "sort_unstable", "sort_unstable_by", "sort_unstable_by_key",
+           "reverse", "rotate_left", "rotate_right", "swap", "rev"}
+DROP = {"dedup", "dedup_by", "dedup_by_key", "retain", "retain_mut", "truncate", "swap_remove", "skip", "take", "step_by",
+        "filter", "take_while", "skip_while", "pop", "pop_front", "pop_back"}
+COLLECTION_OWNERS = ("alloc::slice::", "<impl [T]>", "alloc::vec::Vec","alloc::collections::vec_deque::VecDeque", "core::slice::", "core::iter::traits::iterator::Iterator",
+                     "core::iter::traits::double_ended::DoubleEndedIterator", "indexmap::", "std::collections::", "alloc::collections::")
+# reasoned exceptions: (function, method) -> why the call does not change the restored state
+FAITHFUL_EXCEPTIONS = {}
+
+
+def run_faithful(ctx):
+    """A restore must rebuild the saved collections element for element and in the saved order (sequence operators, joins and
+    windows pick partners / emit by position: JoinBuffer::try_correlate takes the LAST buffered element inside the window)."""
+    F = ctx.facts()
+    fns = []
+    for _, save, restore, _ in PAIRS:
+        for f in (save, restore):
+            if f not in fns:
+                fns.append(f)
+    n = 0
+    for fn in fns:
+        role = "restore" if fn.endswith(("::restore", "::from_checkpoint")) else "save"
+        bodies = F.bodies_of(fn)
+        if not bodies:
+            ctx.anchor_lost("faithful", "%s not found" % fn)
+            continue
+        hits = []
+        for p in bodies:
+            b = ctx.body(p)
+            if b is None:
+                continue
+            for bb, t in b.calls():
+                n += 1
+                callee = t.get("inst") or t["callee"]
+                name = callee.rsplit("::", 1)[-1]
+                if name not in REORDER and name not in DROP:
+                    continue
+                if not any(o in callee or o in t["callee"] for o in COLLECTION_OWNERS):
+                    continue  # Option::take, mem::swap, ... are not collection operations
+                if (fn, name) in FAITHFUL_EXCEPTIONS:
+                    continue
+                hits.append((name, t["sp"], callee))
+        short = fn.split("varpulis_runtime::", 1)[1]
+        if hits:
+            for name, sp, callee in hits:
+                kind = "reorders" if name in REORDER else "may drop elements of"
+                ctx.violation("faithful", "%s:%s" % (short, name), "%s calls %s, which %s a collection on the %s path: the restored state is no longer the saved state element for element and in order (operators that pick by position — the join's last-in-window partner, window emission order — answer differently after a restore)" % (
+                    short, name, kind, role), site=sp)
+        else:
+            ctx.ok("faithful", short, "no reordering / dropping collection call on the %s path" % role)
+    ctx.floor("faithful", "calls scanned in save / restore functions", n, 100)
+
+
 def variants_handled(h, enum_path):
     """variants of `enum_path` named in any pattern (match arm / if let) of the function"""
     out = set()
@@ -133,3 +187,4 @@ def run_dispatch(ctx):
 def run(ctx):
     run_pairs(ctx)
     ctx.guard("dispatch", lambda: run_dispatch(ctx))
+    ctx.guard("faithful", lambda: run_faithful(ctx))
